@@ -11,7 +11,7 @@ PARTIAL = ""
 
 
 def oracle(ctx):
-    n = (48 if ctx["tier"] == "quick" else 480) * ctx["boost"]
+    n = (192 if ctx["tier"] == "quick" else 480) * ctx["boost"]
     return cm.run_cases(fw.c07_case, ctx["seed"], ID, n, {"size": 0 if ctx["tier"] == "quick" else 3 * 0})
 
 
